@@ -17,6 +17,7 @@ import (
 	"sort"
 	"strings"
 	"testing"
+	"time"
 
 	"github.com/google/gce-tcb-verifier/ovmf"
 	"github.com/google/gce-tcb-verifier/ovmf/abi"
@@ -45,7 +46,7 @@ func init() {
 			"temporary-memory sections flagged EXTEND have no contents defined by the property: in default mode their MRTD is counted, not judged (legacy modes measure zeros like every other temporary memory)",
 			"machine shapes: 4 GiB per vCPU, 3 GiB below the hole, 2 MiB firmware window below 4 GiB, NUMA nodes of 176 GiB above 4 GiB",
 		},
-		ShardsQuick: 8, ShardsThor: 16, TimeoutS: 600, TimeoutThor: 3000, Run: run,
+		ShardsQuick: 8, ShardsThor: 16, TimeoutS: 600, TimeoutThor: 3000, UlimitVKB: 4 << 20, Run: run,
 	})
 }
 
@@ -57,6 +58,11 @@ const (
 	eShape   = "tdx.LaunchOptionsDefaultTDHOBBug"
 	eRows    = "tdx.UnsignedTDX"
 )
+
+// guardBudget is not part of the property: it only stops a broken build of the repository (an interval
+// loop that never ends, a runaway allocation) from taking the machine down; the largest honest call
+// costs ~25 ms CPU (the watchdog ends the worker at 3x the budget) and ~4 MB.
+var guardBudget = core.Budget{CPU: 1 * time.Second, Alloc: 512 << 20}
 
 var modes = []tdxref.Mode{tdxref.ModeDefault, tdxref.ModeLegacy, tdxref.ModeLegacyEarly}
 
@@ -337,7 +343,7 @@ func (r *runner) measure(i int, kind, gen string, fw []byte, banks []tdxref.Rang
 		var rerr error
 		entry := map[tdxref.Mode]string{tdxref.ModeDefault: eDefault, tdxref.ModeLegacy: eLegacy, tdxref.ModeLegacyEarly: eEarly}[m]
 		gb := toGPR(mb)
-		pm := c.Guard(i, entry, g, core.Budget{}, func() {
+		pm := c.Guard(i, entry, g, guardBudget, func() {
 			switch m {
 			case tdxref.ModeDefault:
 				regions, rerr = ovmf.ExtractMaterialGuestPhysicalRegions(fw)
@@ -355,7 +361,7 @@ func (r *runner) measure(i int, kind, gen string, fw []byte, banks []tdxref.Rang
 		var got [48]byte
 		var gerr error
 		opts := optsFor(m, mb)
-		pm = c.Guard(i, eMRTD, g, core.Budget{}, func() { got, gerr = tdx.MRTD(opts, fw) })
+		pm = c.Guard(i, eMRTD, g, guardBudget, func() { got, gerr = tdx.MRTD(opts, fw) })
 		c.Count("calls/"+eMRTD+"/"+m.String(), 1)
 		if pm.Panicked {
 			continue
@@ -410,7 +416,7 @@ func (r *runner) measure(i int, kind, gen string, fw []byte, banks []tdxref.Rang
 		if merr == nil && !hasTempExtend(exp.Layout.Sections) {
 			var got [48]byte
 			var gerr error
-			pm := c.Guard(i, eMRTD, gen+"/default+banks", core.Budget{}, func() { got, gerr = tdx.MRTD(&tdx.LaunchOptions{GuestRAMBanks: toGPR(banks)}, fw) })
+			pm := c.Guard(i, eMRTD, gen+"/default+banks", guardBudget, func() { got, gerr = tdx.MRTD(&tdx.LaunchOptions{GuestRAMBanks: toGPR(banks)}, fw) })
 			if !pm.Panicked && gerr == nil {
 				if got == exp.MRTD {
 					c.Count("observed/default-mode-with-banks/equals-no-ram-model", 1)
@@ -486,7 +492,7 @@ func (r *runner) caseShapes(i int) {
 	valid := true
 	for _, sh := range tdxref.Shapes {
 		var o *tdx.LaunchOptions
-		pm := c.Guard(i, eShape, gen+"/"+sh.Name, core.Budget{}, func() { o = tdx.LaunchOptionsDefaultTDHOBBug(sh.Name) })
+		pm := c.Guard(i, eShape, gen+"/"+sh.Name, guardBudget, func() { o = tdx.LaunchOptionsDefaultTDHOBBug(sh.Name) })
 		if pm.Panicked || o == nil {
 			continue
 		}
@@ -512,7 +518,7 @@ func (r *runner) caseShapes(i int) {
 			var mr [48]byte
 			var gerr error
 			g := gen + "/" + sh.Name + "/" + m.String()
-			pm := c.Guard(i, eMRTD, g, core.Budget{}, func() { mr, gerr = tdx.MRTD(o, fw) })
+			pm := c.Guard(i, eMRTD, g, guardBudget, func() { mr, gerr = tdx.MRTD(o, fw) })
 			c.Count("calls/"+eMRTD+"/shape/"+m.String(), 1)
 			if pm.Panicked {
 				continue
@@ -563,7 +569,7 @@ func (r *runner) caseShapes(i int) {
 	var out *epb.VMTdx
 	var uerr error
 	g := fmt.Sprintf("%s/rows/%dshapes/early=%v", gen, len(names), early)
-	pm := c.Guard(i, eRows, g, core.Budget{}, func() {
+	pm := c.Guard(i, eRows, g, guardBudget, func() {
 		out, uerr = tdx.UnsignedTDX(fw, &tdx.EndorsementRequest{Svn: svn, IncludeEarlyAccept: early, MachineShapes: names})
 	})
 	c.Count("calls/"+eRows, 1)
@@ -776,7 +782,7 @@ func (r *runner) caseGrid(i, cfg int, secCfg []ival, bankCfgs [][]ival) {
 				entry = eEarly
 			}
 			gb := toGPR(banks)
-			pm := c.Guard(i, entry, g, core.Budget{}, func() {
+			pm := c.Guard(i, entry, g, guardBudget, func() {
 				if m == tdxref.ModeLegacy {
 					regions, rerr = ovmf.ExtractMaterialGuestPhysicalRegionsTDHOBBug(fw, gb)
 				} else {
@@ -825,7 +831,7 @@ func (r *runner) caseGrid(i, cfg int, secCfg []ival, bankCfgs [][]ival) {
 			var got [48]byte
 			var gerr error
 			opts := optsFor(m, banks)
-			pm = c.Guard(i, eMRTD, g, core.Budget{}, func() { got, gerr = tdx.MRTD(opts, fw) })
+			pm = c.Guard(i, eMRTD, g, guardBudget, func() { got, gerr = tdx.MRTD(opts, fw) })
 			if pm.Panicked {
 				continue
 			}
